@@ -76,7 +76,7 @@ enum OpCode : int {
     H_SCRIBBLE,     // PRNG garbage over struct (except state/max_depth) and state array, seed a
     H_ABANDON,      // marks the crash point (no call)
     // model-level navigation operations (nav): skipped when the reference cursor does not enable them
-    M_ENTER, M_NEXT, M_LEAVE, M_OBSERVE, M_FIELD, M_FIELD_ENS, M_RAW, M_TO_WRITER, M_STREQ,
+    M_ENTER, M_NEXT, M_LEAVE, M_OBSERVE, M_FIELD, M_FIELD_ENS, M_RAW, M_TO_WRITER, M_STREQ, M_RESTART,
     // writer API
     W_INIT, W_RESET, W_OBJ_BEGIN, W_OBJ_END, W_ARR_BEGIN, W_ARR_END, W_BOOL, W_INT, W_DOUBLE,
     W_STRING, W_STRING_LEN, W_NAME, W_BYTES, W_RAW, W_VERIFY, W_COUNTER, W_STRING_NULL, W_RAW_NULL, W_TO_WRITER,
